@@ -210,7 +210,7 @@ func c17Table(p *core.Prog, r *core.Report) {
 		if !isRet || len(ret.Results) != 1 {
 			return
 		}
-		phi, isPhi := ret.Results[0].(*ssa.Phi)
+		phi, isPhi := core.ReturnValues(ret)[0].(*ssa.Phi)
 		if !isPhi {
 			return
 		}
@@ -656,7 +656,7 @@ func c17State(p *core.Prog, r *core.Report) {
 		sel := p.Field("", "RequestState", "SelectedPeers")
 		ok := false
 		core.EachInstr(f, func(i ssa.Instruction) {
-			if ret, isRet := i.(*ssa.Return); isRet && len(ret.Results) == 1 && core.LoadedField(ret.Results[0]) == sel {
+			if ret, isRet := i.(*ssa.Return); isRet && len(ret.Results) == 1 && core.LoadedField(core.ReturnValues(ret)[0]) == sel {
 				ok = true
 			}
 		})
